@@ -54,7 +54,11 @@ def run(ctx):
     for a in field_accesses(prog, FWI, "state"):
         caller = a["func"].root().path
         v = show(a["value"]) if a["value"] is not None else "?"
-        key = "%s %s FdtWriterInner.state = %s" % (caller, a["kind"], v[:40])
+        if a["value"] is not None and not re.match(r"^FDTState::\w+\{\}$", v):
+            # value chosen by a match / if: which variants can flow into it
+            flow_vars = sorted(set(re.search(r"FDTState::(\w+)", z).group(1) for z in Slicer(a["func"].body).sources(a["value"]) if re.search(r"FDTState::(\w+)", z)))
+            v = "one of " + "/".join("FDTState::%s{}" % x for x in flow_vars) if flow_vars else v
+        key = "%s %s FdtWriterInner.state = %s" % (caller, a["kind"], v[:60])
         if a["kind"] == "borrow_mut":
             r1.violation(key, "state mutably borrowed", loc(a["sp"]))
             continue
@@ -105,7 +109,29 @@ def run(ctx):
             r2.ok(key, "guard established by the only caller (checked below)", s.loc)
         else:
             r2.violation(key, "attach_fdt called from an unexpected place", s.loc)
-    r2.floor(2, "attach_fdt call sites")
+    # cleanup re-evaluates the expiry of every FDT receiver before it decides which ones to keep
+    cf = prog.fn(RC + "::cleanup_fdt")
+    ctx.analysed(cf.path)
+    cfl = Flow(cf.body)
+    csl = Slicer(cf.body)
+    upd = []
+    for s in call_sites(cf, lambda p, c: re.search(r"Iterator::for_each$", p) is not None):
+        srcs = csl.sources(s.expr)
+        if any(z.startswith("var:self.fdt_receivers") for z in srcs):
+            for z in srcs:
+                if z.startswith("closure:"):
+                    cfn = prog.funcs.get(z[len("closure:"):])
+                    if cfn and any(True for _ in call_sites(cfn, lambda p, cc: p == FR + "::update_expired_state")):
+                        upd.append(s)
+    upd += [s for s in call_sites(cf, lambda p, c: p == FR + "::update_expired_state")]
+    rets_ = [s for s, ai, mut in calls_on_field(prog, RC, "fdt_receivers", funcs=[cf]) if method_name(s) in ("retain", "remove", "extract_if")]
+    key = "cleanup_fdt refreshes the expiry state before retain"
+    if upd and rets_ and all(any(u.bb != r.bb and cfl.dominates(u.bb, r.bb) for u in upd) for r in rets_):
+        r2.ok(key, "update_expired_state(now) over fdt_receivers dominates retain", upd[0].loc)
+    else:
+        r2.violation(key, "cleanup_fdt decides which FDT receivers to keep without first re-evaluating their expiry (an instance that expired since it "
+                          "completed stays Complete and attachable)", loc(cf.sp))
+    r2.floor(3, "attach_fdt call sites")
     callers = find_calls(prog, r"^receiver::receiver::Receiver::attach_latest_fdt_to_objects$")
     for s in callers:
         caller = s.func.root().path
@@ -251,3 +277,10 @@ def run(ctx):
             r4.violation(key, "Expires is converted as %s; the attribute holds NTP *seconds*, which belong in the upper 32 bits" % show(ex, 100), s.loc)
     # absent expiry counts as expired (R1 covers the comparison itself)
     r4.floor(3, "Expires provenance facts")
+
+    # ---- R5 the sender current time the skew is computed from -----------------------------------------------------------
+    r5 = ctx.rule("C19.R5", "the sender's clock is read from EXT_TIME as RFC 5651 lays it out - any valid flag combination (SCT-High alone included) is "
+                            "accepted, the seconds are wire bits 32..63 in the upper half of the NTP value - and converted with the 1900->1970 offset "
+                            "(shared with C06.R8): a refused or misread SCT silently leaves the receiver on its own clock", "E5 bit provenance + affine forms")
+    from . import c06
+    c06.ext_time_rule(ctx, r5)
